@@ -2,6 +2,7 @@ import Driver.Proto
 import XsdataModel.Ctx.Context
 import XsdataModel.Ctx.Memo
 import XsdataModel.Ctx.Conc
+import XsdataModel.Ctx.ParserCfg
 open Lean Proto Py Xs.Ctx
 
 namespace OpsCtx
@@ -206,6 +207,25 @@ def run (op : String) (a : Json) : Option (Except String Json) :=
         | none => State.init
       let sys := drain U w (runSched U w (Sys.start s0 progs) schedule)
       pure <| ok (jObj [("results", jList (jOpt jOut) sys.results), ("state", jState sys.shared.toState)])
+  | "cfg.run" => some do
+      let strict ← getBool a "strict"
+      let uf ← getBool a "unknown_fail"
+      let ds ← getArr a "docs"
+      let docs ← ds.mapM fun j => do
+        match j.getObjValD "prim" with
+        | .bool b => pure (Xs.ParserCfg.Doc.prim b)
+        | _ =>
+          let cs ← getArr j "union"
+          let bs ← cs.mapM fun c => match c with
+            | .bool b => pure b
+            | _ => .error "bad candidate"
+          pure (Xs.ParserCfg.Doc.union bs)
+      let r := Xs.ParserCfg.run ⟨strict, uf⟩ docs
+      let outStr : Xs.ParserCfg.Out → String
+        | .ok => "ok"
+        | .warned => "warned"
+        | .error => "error"
+      pure <| ok (jObj [("outs", jList (fun o => Json.str (outStr o)) r.1), ("strict_after", jBool r.2.strict)])
   | _ => none
 
 end OpsCtx
